@@ -44,6 +44,7 @@ def run(chk):
     G('address-step', 'steps_between', lambda: steps_between(chk))
     G('page-step', 'pages', lambda: page_steps(chk))
     G('index-step', 'table indices', lambda: index_steps(chk))
+    G('step-overrides', 'provided Step methods', lambda: step_overrides(chk))
     chk.floor('obligations', len(chk.obs), 42)
 
 
@@ -331,3 +332,53 @@ def index_steps(chk):
         ok = ok and len(calls) == 1 and calls[0][1] == '<u16 as core::iter::Step>::steps_between' and calls[0][2][0].loc == ('arg', 'a') and calls[0][2][1].loc == ('arg', 'b')
         ok = ok and ('steps_between#%d' % calls[0][5]) in repr(o.val)
     chk.ob('index-step', 'PageTableIndex::steps_between = u16::steps_between of the two indices', ok, 'paths %r' % (outs,), fn_site(I, fn_))
+
+
+def step_overrides(chk):
+    """`Step::forward/backward(_unchecked)` are provided methods defined by core through the checked forms (which the rules above decide).
+    An impl that overrides one of them must still be the checked form unwrapped: Some(x) -> x, None -> panic."""
+    I = chk.I
+    impls = [im for im in chk.facts['impls'] if im['trait'] == 'core::iter::Step']
+    chk.floor('Step impls', len(impls), 3)
+    for im in impls:
+        items = {it['name']: it['path'] for it in im['items']}
+        short = im['selfs'].split('::')[-1]
+        extra = sorted(n for n in items if n not in ('steps_between', 'forward_checked', 'backward_checked'))
+        chk.ob('step-overrides', 'Step for %s: steps_between, forward_checked and backward_checked are defined' % short,
+               all(n in items for n in ('steps_between', 'forward_checked', 'backward_checked')), 'items %s' % sorted(items), nontrivial=False)
+        for n in extra:
+            base = {'forward': 'forward_checked', 'backward': 'backward_checked', 'forward_unchecked': 'forward_checked', 'backward_unchecked': 'backward_checked'}.get(n)
+            fn_ = items[n]
+            if base is None or base not in items or fn_ not in I.fn:
+                chk.unproven('step-overrides', 'Step for %s overrides %s' % (short, n), 'cannot relate this override to a checked form', fn_site(I, fn_))
+                continue
+            target = items[base]
+            f = I.fn[fn_]
+            st = State()
+            sub = {g: size_ty('Size4KiB') for g in f['generics']}
+            args = [I.sym_value(I.subst_ty(f['locals'][i + 1], sub), 'arg%d' % i, st) for i in range(f['argc'])]
+            saved = set(I.opaque_fns)
+            I.opaque_fns |= {target}
+            try:
+                outs = run_case(chk, fn_, args, st, sub)
+            finally:
+                I.opaque_fns = saved
+            ok = bool(outs)
+            why = ''
+            for o in outs:
+                calls = [e for e in o.st.events if e[0] == 'call' and e[1] == target]
+                if len(calls) != 1 or not all(same(x, y) for x, y in zip(calls[0][2], args)):
+                    ok, why = False, 'a path does not go through %s(start, count) exactly once' % base
+                    continue
+                res = [e for e in o.st.events if e[0] == 'opaque-result' and e[1].startswith(target.split('::')[-1] + '#')]
+                variant = res[-1][2] if res else None
+                if o.kind == 'ret':
+                    tagp = '%s#%d' % (target.split('::')[-1], calls[0][5])
+                    if variant != 'Some' or tagp not in repr(o.val):
+                        ok, why = False, 'returns %r, which is not the payload of %s\'s Some' % (o.val, base)
+                elif o.kind == 'panic':
+                    if variant != 'None':
+                        ok, why = False, 'panics although %s returned Some' % base
+                else:
+                    ok, why = False, 'path ends with %s' % o.kind
+            chk.ob('step-overrides', 'Step for %s: the overridden `%s` is %s(..) unwrapped (Some(x) -> x, None -> panic)' % (short, n, base), ok, why or 'paths %r' % (outs,), fn_site(I, fn_))
